@@ -954,7 +954,11 @@ func transformOrigin(tokens []Token, _ string) pr.CssProperty {
 		// Ignore third parameter as 3D transforms are ignored.
 		tokens = tokens[:2]
 	}
-	return parse2dPosition(tokens)
+	origin := parse2dPosition(tokens)
+	if origin.IsNone() {
+		return nil
+	}
+	return origin
 }
 
 // @validator()
@@ -1283,9 +1287,12 @@ func bleed(tokens []Token, _ string) pr.CssProperty {
 	keyword := getKeyword(token)
 	if keyword == "auto" {
 		return pr.DimOrS{S: "auto"}
-	} else {
-		return getLength(token, true, false).ToValue()
 	}
+	length := getLength(token, true, false)
+	if length.IsNone() {
+		return nil
+	}
+	return length.ToValue()
 }
 
 // @validator()
@@ -3659,7 +3666,11 @@ func tabSize(tokens []Token, _ string) pr.CssProperty {
 			return pr.NewDim(pr.Float(number.ValueF), 0).ToValue()
 		}
 	}
-	return getLength(token, false, false).ToValue()
+	length := getLength(token, false, false)
+	if length.IsNone() {
+		return nil
+	}
+	return length.ToValue()
 }
 
 // @validator(unstable=true)
